@@ -5,6 +5,7 @@ import (
 	"fmt"
 	"io"
 	"net"
+	"os"
 	"sort"
 	"strings"
 	"sync"
@@ -119,12 +120,19 @@ func c12build(kind string, r *vh.RNG) (*c12env, error) {
 		e.wg.Add(1)
 		go func() {
 			defer e.wg.Done()
+			nAcc := 0
 			for {
 				c, err := ln.Accept()
 				if err != nil {
 					return
 				}
 				e.addPeer(c)
+				nAcc++
+				if nAcc%2 == 1 {
+					// the first connection of the client ends with a half close by the peer: the client reconnects
+					go e.peerHalfClose(c, 3)
+					continue
+				}
 				go e.peerTraffic(c, 300)
 			}
 		}()
@@ -202,11 +210,17 @@ func c12build(kind string, r *vh.RNG) (*c12env, error) {
 		}(i, tr)
 	}
 	for _, p := range e.tcpPorts {
-		for k := 0; k < 2; k++ {
+		for k := 0; k < 3; k++ {
 			c, err := net.Dial("tcp4", fmt.Sprintf("127.0.0.1:%d", p))
 			if err == nil {
 				e.addPeer(c)
 				e.wg.Add(1)
+				if k == 2 {
+					// a peer that says a few things, ends its side of the stream and goes on listening: the node sees EOF first,
+					// the peer must still see the connection released
+					go func() { defer e.wg.Done(); e.peerHalfClose(c, r.Intn(6)) }()
+					continue
+				}
 				go func() { defer e.wg.Done(); e.peerTraffic(c, 300) }()
 			}
 		}
@@ -248,6 +262,56 @@ func (e *c12env) peerTraffic(c net.Conn, n int) {
 		}
 		time.Sleep(300 * time.Microsecond)
 	}
+}
+
+// peerHalfClose sends n frames, shuts down the sending side of the connection and keeps the receiving side open.
+func (e *c12env) peerHalfClose(c net.Conn, n int) {
+	for i := 0; i < n; i++ {
+		if _, err := c.Write(uidFrame(uint64(i), byte(i), 7, false, nil, 0)); err != nil {
+			return
+		}
+	}
+	if tc, ok := c.(*net.TCPConn); ok {
+		_ = tc.CloseWrite()
+	}
+}
+
+// socketFDs lists the sockets this process holds (inode numbers).
+func socketFDs() map[string]bool {
+	out := map[string]bool{}
+	ents, err := os.ReadDir("/proc/self/fd")
+	if err != nil {
+		return out
+	}
+	for _, en := range ents {
+		if l, err := os.Readlink("/proc/self/fd/" + en.Name()); err == nil && strings.HasPrefix(l, "socket:") {
+			out[l] = true
+		}
+	}
+	return out
+}
+
+// describeSockets looks the inodes up in /proc/net/{tcp,udp}.
+func describeSockets(inodes []string) []string {
+	var out []string
+	for _, f := range []string{"/proc/net/tcp", "/proc/net/udp"} {
+		data, err := os.ReadFile(f)
+		if err != nil {
+			continue
+		}
+		for _, line := range strings.Split(string(data), "\n") {
+			fs := strings.Fields(line)
+			if len(fs) < 10 {
+				continue
+			}
+			for _, in := range inodes {
+				if "socket:["+fs[9]+"]" == in {
+					out = append(out, f+": local "+fs[1]+" remote "+fs[2]+" state "+fs[3]+" inode "+fs[9])
+				}
+			}
+		}
+	}
+	return out
 }
 
 func (e *c12env) cleanup() {
@@ -329,6 +393,7 @@ func c12placement(rep *vh.Report, r *vh.RNG, kind, point string, k int, consumer
 	if point != "" {
 		hit, release = hookTrap(point, k)
 	}
+	socketsBefore := socketFDs()
 	env, err := c12build(kind, r)
 	if err != nil {
 		release()
@@ -530,6 +595,27 @@ func c12placement(rep *vh.Report, r *vh.RNG, kind, point string, k int, consumer
 	// (3)(4) ports, connections, close counts
 	env.checkReleased(rep, where, true)
 	env.cleanup()
+	// every socket opened since the scenario began is gone once the node is closed and the harness has closed its own
+	// (a connection whose peer went away first included)
+	var leaked []string
+	for i := 0; i < 60; i++ {
+		leaked = leaked[:0]
+		for s := range socketFDs() {
+			if !socketsBefore[s] {
+				leaked = append(leaked, s)
+			}
+		}
+		if len(leaked) == 0 {
+			break
+		}
+		time.Sleep(50 * time.Millisecond)
+	}
+	rep.Count("socket_fd_checks", 1)
+	if len(leaked) > 0 {
+		sort.Strings(leaked)
+		rep.Violation("what=port:fd", fmt.Sprintf("%d socket(s) opened during the scenario are still held by the process 3 s after Close returned and the peers closed theirs", len(leaked)),
+			map[string]interface{}{"scenario": kind, "close_placed_at": where, "sockets": describeSockets(leaked)})
+	}
 	// (2) no goroutine the node started survives
 	left := waitNoLibGoroutines(func(g string) bool {
 		return strings.Contains(g, "verifharness/nodeprops") && !strings.Contains(g, "gomavlib/v3.(*")
